@@ -777,7 +777,11 @@ def execute(scenario, log=None):
             patch.set(mcmc_mod, "torch", TorchProxy(sim))
             patch.set(mcmc_mod, "SignalHandler", SimSignalHandler)
             patch.set(mcmc_mod, "_VERIF_TRACE", sim.on_trace)
+            wrapped = set()
             for op in mcmc._operators:
+                if id(op) in wrapped:
+                    continue  # the same operator may be listed more than once
+                wrapped.add(id(op))
                 op.step = sim.wrap_step(op, op.step)
                 op.accept = sim.wrap_decision(op, op.accept, "accept")
                 op.reject = sim.wrap_decision(op, op.reject, "reject")
